@@ -1232,6 +1232,33 @@ def ev_blocks(c, seed, tier, part):
                     vsp(c, K + ':tc=z', S2, R.as_tc(exp1, 'z'), None, sub)
                 except Exception as e:
                     c.fail(K + ':single-column:exception:' + type(e).__name__, 'raised %r' % e, sub)
+    if part == 1:
+        # block columns of three blocks with a number (a 1x1 block) in the middle / first / last position
+        for r1, r3 in itertools.product((1, 2, 3), (1, 2)):
+            for k1, k3 in itertools.product('sd', repeat=2):
+                for pos in (0, 1, 2):
+                    for tc in ('d', 'z') if tier == 'thorough' else ('d',):
+                        c.n += 1
+                        K = 'C16:sparse(blocks):three-blocks:number-at-%d' % pos
+                        sub = {'heights': [r1, r3], 'kinds': k1 + k3, 'number-at': pos, 'tc': tc}
+                        cols_o, cols_m = [], []
+                        for col in (0, 1):
+                            o1, m1 = _blk(k1, r1, 1, tc, seed, 3 + col)
+                            o3, m3 = _blk(k3, r3, 1, tc, seed, 5 + col)
+                            v, vm = _blk('n', 1, 1, tc, seed, 7 + col)
+                            lo, lm = [o1, o3], [m1, m3]
+                            lo.insert(pos, v); lm.insert(pos, vm)
+                            cols_o.append(lo); cols_m.append(lm)
+                        for ncol in (1, 2):
+                            exp = R.blocks(cols_m[:ncol])
+                            try:
+                                S = sparse(cols_o[:ncol])
+                            except Exception as e:
+                                c.fail(K + ':exception:' + type(e).__name__, 'valid block matrix raised %r' % e, sub)
+                                continue
+                            if vsp(c, K, S, exp, set(p for p, x in enumerate(exp.a) if x != 0), sub):
+                                c.count('blocks:ok')
+                                c.nontrivial += 1
     if part == 0:
         # incompatible block sizes are rejected
         from cvxopt import matrix, spmatrix
